@@ -34,8 +34,8 @@ from typing import Optional
 from .analysis import Desc, classify
 
 DEFAULT_P = {
-    "n_trans": (2, 5),
-    "n_meth": (2, 6),
+    "n_trans": (3, 6),
+    "n_meth": (3, 7),
     "n_alias": (0, 2),
     "n_modules": (1, 3),
     "p_nonexcl": 0.25,
@@ -47,15 +47,15 @@ DEFAULT_P = {
     "p_same_in_alts": 0.5,  # a structure calls one method in every alternative
     "p_mcall": 0.5,  # a method body calls further methods
     "max_depth": 2,
-    "p_nest": 0.12,  # a body is defined inside another body
-    "p_wrap": 0.3,  # top-level bodies are wrapped into alternatives of a module-level structure
+    "p_nest": 0.07,  # a body is defined inside another body
+    "p_wrap": 0.12,  # top-level bodies are wrapped into alternatives of a module-level structure
     "n_conflict": (0, 2),
     "n_before": (0, 2),
     "p_rd": 0.4,
     "p_single": 0.08,
     "p_group": 0.2,
     "p_custom_comb": 0.25,
-    "share": 0.6,  # transactions prefer a small pool of callees
+    "share": 0.4,  # transactions prefer a small pool of callees
 }
 
 INJECT_KINDS = ["doubleCall", "cycle", "unsatPriority", "singleCaller", "readyDepConflict", "sameTransConflict"]
@@ -322,11 +322,11 @@ class Gen:
             self.mdef[ref] = st
             later = set(self.defined[i + 1 :])
             pool = [m["ref"] for m in self.methods if self.resolve(m["ref"]) in later and self.resolve(m["ref"]) in self.mdef]
-            if pool and rng.random() < P["p_mcall"]:
+            if pool and rng.random() < (max(P["p_mcall"], 0.8) if st["nonexclusive"] else P["p_mcall"]):
                 st["block"] = self.gen_block(pool, [], (), 0, rng.choice([1, 1, 2]))
         # transactions
         allrefs = [m["ref"] for m in self.methods]
-        hot = rng.sample(allrefs, min(len(allrefs), rng.choice([1, 2, 3])))
+        hot = rng.sample(allrefs, min(len(allrefs), rng.choice([1, 1, 2])))
         for i in range(_rint(rng, P["n_trans"])):
             name = f"t{i}"
             pool = hot if rng.random() < P["share"] else allrefs
